@@ -3,7 +3,8 @@
    condition (fresh counters above all identities, locality of outputs, ...) is required at the point where it runs. *)
 From Coq Require Import ZArith NArith List Bool Lia Permutation.
 From IRV Require Import Base.Exn Gen.C05Gen C05.Model C05.Proofs C05.Proofs2 C05.Proofs3 C05.Proofs4 C05.Proofs5 C05.Proofs6
-     C05.Proofs7 C05.Proofs8 C05.Proofs9 C05.Proofs10 C05.Proofs11 C05.Proofs13.
+     C05.Proofs7 C05.Proofs8 C05.Proofs9 C05.Proofs10 C05.Proofs11 C05.Proofs13 C05.Proofs14 C05.Proofs16
+     C05.Inline C05.InlineCert C05.InlinePass C05.Proofs17.
 Import ListNotations.
 Open Scope N_scope.
 
@@ -52,6 +53,12 @@ Section Seq.
   Hypothesis interp_defaults : forall op attrs aenv subs ins k,
       interp op (resolve aenv (add_attrs attrs (op_defaults tbl op))) subs ins k = interp op (resolve aenv attrs) subs ins k.
 
+  (* used by InlinePass only: operators see the denotations of their bodies, not the identities of the graphs *)
+  Hypothesis interp_graph_ids : forall op attrs attrs' subs ins k,
+      Forall2 (fun x y => fst x = fst y /\ (snd x = snd y \/ (is_graph_attr (snd x) = true /\ is_graph_attr (snd y) = true
+                                                              /\ length (attr_graphs [x]) = length (attr_graphs [y])))) attrs attrs' ->
+      interp op attrs subs ins k = interp op attrs' subs ins k.
+
   Notation computes := (computes absent tensor_val interp).
   Notation Pres := (Pres T absent tensor_val interp).
 
@@ -93,7 +100,9 @@ Section Seq.
   | PLiftSub (order : list gref)
   | PAddInit
   | PRmInit
-  | PDefAttr (fuel : nat).
+  | PDefAttr (fuel : nat)
+  | PRmFunc (fuel : nat)                        (* RemoveUnusedFunctionsPass *)
+  | PInline (fuel : nat) (fv fg : N).           (* InlinePass; fv / fg = counters for fresh value / graph identities *)
 
   Definition apply_pass (m : model) (p : pass) : model :=
     match p with
@@ -108,12 +117,14 @@ Section Seq.
     | PAddInit => add_inits_to_inputs [GMain] m
     | PRmInit => remove_inits_from_inputs [GMain] m
     | PDefAttr fuel => add_default_attrs tbl fuel m
+    | PRmFunc fuel => remove_unused_funcs_checked fuel m
+    | PInline fuel fv fg => inline_pass_c fuel m fv fg
     end.
 
   (* what a pass needs beyond WF / NoOpFunc, at the point where it runs *)
   Definition extra (p : pass) (m : model) : Prop :=
     match p with
-    | PIdent _ | PDedup _ _ _ | PAddInit | PRmInit => True
+    | PIdent _ | PDedup _ _ _ | PAddInit | PRmInit | PRmFunc _ | PInline _ _ _ => True
     | PDce sc u _ _ => NoBNTraining m /\ NoFuncOp sc m /\ OL m /\ UnnamedDead u m /\ frame_ok m
     | PLift _ _ _ fresh => ConstOK m /\ FreshOK m fresh
     | PCse _ fresh => MainLocal m /\ FreshB m fresh
@@ -165,6 +176,14 @@ Section Seq.
       intros env r _ Hc. apply remove_inits_main_computes_iff. exact Hc.
     - pose proof (add_default_attrs_pres T absent tensor_val interp interp_mono interp_identity interp_trailing_absent tbl interp_defaults fuel m HW HN Hx) as P.
       split; [destruct P; split; assumption | apply Pres_Refines; [exact P | reflexivity]].
+    - split; [split; [apply rmfunc_checked_WF | apply rmfunc_checked_NoOpFunc]; assumption|].
+      constructor; [| unfold noninit_inputs; rewrite rmfunc_checked_main; reflexivity | rewrite rmfunc_checked_main; reflexivity].
+      intros env r He Hc.
+      apply (rmfunc_checked_computes T absent tensor_val interp interp_mono interp_identity interp_trailing_absent fuel m HW); [|exact Hc].
+      apply NIenv_formal. exact He.
+    - destruct (inline_pass_c_good T absent tensor_val interp interp_mono interp_identity interp_trailing_absent interp_graph_ids
+                                   fuel m fv fg HW HN) as [G1 G2 G3 G4 G5].
+      split; [split; assumption|]. constructor; assumption.
   Qed.
 
   Fixpoint seq_ok (ps : list pass) (m : model) : Prop :=
